@@ -56,6 +56,9 @@ pub enum Op {
     /// constrain(expression tree - const): the tree is built with every linear-combination
     /// operator (seed, depth) -- C15
     ConTree(u64, usize),
+    /// multiply(tree, tree): both operands are expression trees built with the operators (the prover
+    /// evaluates them to synthesise the wires) -- C15
+    MulTree(u64, usize),
     /// cs.transcript().append_message(b"app-data", ..)
     Msg(String),
     /// challenge_scalar (second phase only)
@@ -110,7 +113,7 @@ impl Shape {
             let mut pending = false;
             for o in ops {
                 match o {
-                    Op::AllocMul | Op::Mul => n += 1,
+                    Op::AllocMul | Op::Mul | Op::MulTree(_, _) => n += 1,
                     Op::Alloc => {
                         if !pending {
                             n += 1;
@@ -567,6 +570,58 @@ pub fn run_ops<G: AffineRepr, CS: RoleCS<G>>(cs: &mut CS, ops: &[Op], shr: &Rc<R
                 sh.con_vals.push(val + c);
                 sh.cons.push((terms, c));
             }
+            Op::MulTree(seed, depth) => {
+                use rand::Rng;
+                let mut trng = rand_chacha::ChaChaRng::seed_from_u64(*seed);
+                let handles: Vec<Variable<FOf<G>>> = sh.vars.iter().map(|v| v.0).collect();
+                let vals: Vec<FOf<G>> = sh.vars.iter().map(|v| v.1).collect();
+                let mut mk = |sh: &mut Shared<G>, trng: &mut rand_chacha::ChaChaRng| {
+                    let mut coef = |r: &mut rand_chacha::ChaChaRng| -> FOf<G> {
+                        match r.gen_range(0..8u32) {
+                            0 => FOf::<G>::zero(),
+                            1 | 2 => FOf::<G>::one(),
+                            3 => -FOf::<G>::one(),
+                            4 => FOf::<G>::from(2u64),
+                            _ => sh.draw("c"),
+                        }
+                    };
+                    crate::expr::random_tree::<FOf<G>>(trng, handles.len(), *depth, &mut coef)
+                };
+                let ta_tree = mk(sh, &mut trng);
+                let tb_tree = mk(sh, &mut trng);
+                let (lca, va) = (crate::expr::build(&ta_tree, &handles), crate::expr::eval(&ta_tree, &vals));
+                let (lcb, vb) = (crate::expr::build(&tb_tree, &handles), crate::expr::eval(&tb_tree, &vals));
+                let (da, ka) = crate::expr::flatten(&ta_tree, handles.len());
+                let (db, kb) = crate::expr::flatten(&tb_tree, handles.len());
+                let l0 = sh.draw("w");
+                let r0 = sh.draw("w");
+                let ca = sh.carry("const", l0 - va);
+                let cb = sh.carry("const", r0 - vb);
+                let i = sh.gates.len();
+                let gl = sh.gate_err(i, 0);
+                let gr = sh.gate_err(i, 1);
+                let go = sh.gate_err(i, 2);
+                let (l, r) = (l0 + gl, r0 + gr);
+                let o = l * r + go;
+                // a constant spelled first in the left operand, last in the right one
+                let (lv, rv, ov) = cs.multiply(LinearCombination::from(ca) + lca, lcb + cb);
+                sh.handles.push(format!("{},{},{}", show_var(&lv), show_var(&rv), show_var(&ov)));
+                sh.gates.push((l, r, o));
+                sh.set_var(lv, l);
+                sh.set_var(rv, r);
+                sh.set_var(ov, o);
+                sh.con_vals.push(-gl);
+                sh.con_vals.push(-gr);
+                let mut ta: Vec<(VK, usize, FOf<G>)> = handles.iter().zip(da.iter()).map(|(h, co)| { let (k, j) = vkey(h).unwrap(); (k, j, *co) }).collect();
+                let mut tb: Vec<(VK, usize, FOf<G>)> = handles.iter().zip(db.iter()).map(|(h, co)| { let (k, j) = vkey(h).unwrap(); (k, j, *co) }).collect();
+                ta.push((VK::L, i, -FOf::<G>::one()));
+                tb.push((VK::R, i, -FOf::<G>::one()));
+                sh.cons.push((ta, ka + ca));
+                sh.cons.push((tb, kb + cb));
+                if sh.err.gate.iter().any(|(g, _)| *g == i) {
+                    cs.role_set_gate(i, l, r, o);
+                }
+            }
             Op::ConTree(seed, depth) => {
                 use rand::Rng;
                 let mut trng = rand_chacha::ChaChaRng::seed_from_u64(*seed);
@@ -741,6 +796,34 @@ pub fn rewind_for_verifier<G: AffineRepr>(shr: &Rc<RefCell<Shared<G>>>) {
     if sh.verifier_commitments.is_empty() {
         sh.verifier_commitments = sh.commitments.clone();
     }
+}
+
+struct NoVals;
+impl<F> Vals<F> for NoVals {
+    fn fresh(&mut self, _kind: &str) -> F {
+        panic!("a forked (replaying) state never draws fresh values")
+    }
+}
+
+/// An independent verifier-side copy of the shared state (same tape, same commitments): needed when
+/// several verifiers of the same statement are alive at once (batch verification), because the
+/// randomized-phase closures only run inside `verify` / `batch_verify`.
+pub fn fork_for_verifier<G: AffineRepr + 'static>(shape: &Shape, shr: &Rc<RefCell<Shared<G>>>) -> Rc<RefCell<Shared<G>>> {
+    let f = new_shared::<G>(shape, &Default::default(), Box::new(NoVals));
+    {
+        let src = shr.borrow();
+        let mut d = f.borrow_mut();
+        d.tape = src.tape.clone();
+        d.err = src.err.clone();
+        d.commitments = src.commitments.clone();
+        d.verifier_commitments = if src.verifier_commitments.is_empty() { src.commitments.clone() } else { src.verifier_commitments.clone() };
+        d.v_blinding = src.v_blinding.clone();
+        d.extra_commitment = src.extra_commitment;
+        d.dev_draw = src.dev_draw.clone();
+        d.dev_delta = src.dev_delta;
+    }
+    rewind_for_verifier(&f);
+    f
 }
 
 pub struct PreparedVerifier<'t, G: AffineRepr> {
